@@ -385,6 +385,26 @@ Ltac sq2 :=
   repeat first [ apply square_mzip | apply square_mmap | apply wf2_sq; assumption | apply wf2_outer; assumption ].
 Ltac numr := unfold nhalf, n2, nm1; cbn [nadd nsub nmul ndiv nneg nofZ n0 n1 npow nexp nln NumR]; try lra; try ring; try (field; fail).
 
+Lemma d2pow_unguard (a : dual2R) pw :
+  d2pow a pw =
+  let coeff := nmul pw (npow (re2 a) (nsub pw n1)) in
+  let coeff2 := nmul (nmul (nmul nhalf pw) (nsub pw n1)) (npow (re2 a) (nsub pw n2)) in
+  let cross := outer (du2 a) (du2 a) in
+  mkDual2 (npow (re2 a) pw) (vs2 a) (vscale_r (du2 a) coeff)
+    (mzip nadd (mmap (fun e => nmul e coeff) (dd2 a)) (mmap (fun e => nmul e coeff2) cross)).
+Proof.
+  unfold d2pow. cbn zeta.
+  set (c1g := if neqb pw n0 then n0 else nmul pw (npow (re2 a) (nsub pw n1))).
+  set (c2g := if neqb pw n0 || neqb pw n1 then n0
+              else nmul (nmul (nmul nhalf pw) (nsub pw n1)) (npow (re2 a) (nsub pw n2))).
+  assert (E1 : c1g = nmul pw (npow (re2 a) (nsub pw n1))).
+  { unfold c1g. cbn [neqb n0 NumR]. unfold Reqb. destruct (Req_EM_T pw 0) as [E|E]; [subst; cbn; ring|reflexivity]. }
+  assert (E2 : c2g = nmul (nmul (nmul nhalf pw) (nsub pw n1)) (npow (re2 a) (nsub pw n2))).
+  { unfold c2g. cbn [neqb n0 n1 NumR]. unfold Reqb.
+    destruct (Req_EM_T pw 0) as [E|E]; [subst; cbn; ring|].
+    destruct (Req_EM_T pw 1) as [F|F]; [subst; cbn; ring|reflexivity]. }
+  rewrite E1, E2. reflexivity.
+Qed.
 Lemma d2pow_spec a pw : wf2 a ->
   let c1 := pw * Rpowf (re2 a) (pw - 1) in
   let c2 := / 2 * pw * (pw - 1) * Rpowf (re2 a) (pw - 2) in
@@ -392,7 +412,7 @@ Lemma d2pow_spec a pw : wf2 a ->
   (forall v, coef1 (d2pow a pw) v = coef1 a v * c1) /\
   (forall u v, coef2 (d2pow a pw) u v = coef2 a u v * c1 + coef1 a u * coef1 a v * c2).
 Proof.
-  intros W c1 c2. unfold d2pow, vscale_r. split; [|split; [|split]].
+  intros W c1 c2. rewrite d2pow_unguard. cbn zeta. unfold vscale_r. split; [|split; [|split]].
   - apply wf2_mk; auto. sq2.
   - reflexivity.
   - intros v. rewrite coef1_mk by numr. reflexivity.
